@@ -317,6 +317,13 @@ func replay(id string, ck *Check, path string) int {
 		fmt.Fprintln(os.Stderr, "no replay for this property")
 		return 2
 	}
+	// a crash replay wraps the write-ahead case together with the stderr tail of the dead worker
+	var wrap struct {
+		Case json.RawMessage `json:"case"`
+	}
+	if json.Unmarshal(f.Replay, &wrap) == nil && len(wrap.Case) > 0 {
+		f.Replay = wrap.Case
+	}
 	c := &Ctx{ID: id, Tier: "quick", Quick: true, Seed: seed(), N: 1, R: evid.NewResult()}
 	ck.Replay(c, f.Replay)
 	for _, v := range c.R.Violations {
